@@ -50,6 +50,18 @@ def hermitian_cases(rng, n, quick):
         Z[2][1] = Q(); Z[1][2] = Q()
         if Z[3][1].is_zero(): Z[3][1] = Q(1, 0, -2, 0); Z[1][3] = Q(1, 0, 2, 0)
         out.append(('zero-leading-entry-second-column', Z, None))
+    if n >= 2:
+        # columns whose leading entry is an exactly real number (the reflector's phase factor is then +1 or -1): positive and negative
+        for nm_, val in (('positive-real-leading-entry', 2), ('negative-real-leading-entry', -2)):
+            Z = [r[:] for r in A]; Z[1][0] = Q(val); Z[0][1] = Q(val)
+            out.append((nm_, Z, None))
+        Gr = [[Q(rng.randint(-3, 3)) for _ in range(n)] for _ in range(n)]
+        out.append(('real-symmetric', qx.add(Gr, qx.herm(Gr)), None))
+        Tr = qx.zeros(n, n)
+        for i in range(n):
+            Tr[i][i] = Q(rng.randint(-3, 3))
+            if i + 1 < n: Tr[i + 1][i] = Q(i % 3 + 1); Tr[i][i + 1] = Q(i % 3 + 1)
+        out.append(('real-tridiagonal-positive', Tr, None))
     T = qx.zeros(n, n)
     for i in range(n):
         T[i][i] = Q(rng.randint(-3, 3))
